@@ -2,6 +2,8 @@ package gen
 
 import (
 	"fmt"
+	"math"
+	"sort"
 	"strings"
 
 	"github.com/high-moctane/mocrelay"
@@ -155,7 +157,7 @@ func WireFilter(t *rapid.T, label string) (*mocrelay.ReqFilter, JObj, int) {
 	}
 	var since int64
 	if pres("since") {
-		since = rapid.OneOf(rapid.Int64Range(0, 1<<40), rapid.Just(int64(0))).Draw(t, label+"since")
+		since = rapid.OneOf(rapid.Int64Range(0, 1<<40), rapid.Just(int64(0)), rapid.SampledFrom(bigInts)).Draw(t, label+"since")
 		f.Since = Ptr(since)
 		fields = append(fields, JField{"since", JInt(since)})
 		opt++
@@ -164,12 +166,21 @@ func WireFilter(t *rapid.T, label string) (*mocrelay.ReqFilter, JObj, int) {
 		// since <= until: the relay deliberately rejects since > until; the properties are
 		// silent on it, so the class is not generated (see DESIGN.md, C11).
 		until := since + rapid.OneOf(rapid.Int64Range(0, 1<<40), rapid.Just(int64(0))).Draw(t, label+"until")
+		if rapid.IntRange(0, 5).Draw(t, label+"untilbig") == 0 {
+			// integers a float64 cannot hold exactly
+			if b := rapid.SampledFrom(bigInts).Draw(t, label+"untilbigv"); b >= since {
+				until = b
+			}
+		}
+		if until < since { // overflow of the sum
+			until = math.MaxInt64
+		}
 		f.Until = Ptr(until)
 		fields = append(fields, JField{"until", JInt(until)})
 		opt++
 	}
 	if pres("limit") {
-		l := rapid.OneOf(rapid.Int64Range(0, 5000), rapid.Just(int64(0))).Draw(t, label+"limit")
+		l := rapid.OneOf(rapid.Int64Range(0, 5000), rapid.Just(int64(0)), rapid.SampledFrom(bigInts)).Draw(t, label+"limit")
 		f.Limit = Ptr(l)
 		fields = append(fields, JField{"limit", JInt(l)})
 		opt++
@@ -178,12 +189,61 @@ func WireFilter(t *rapid.T, label string) (*mocrelay.ReqFilter, JObj, int) {
 	return f, JObj(perm), opt
 }
 
+// FilterDoc writes an existing filter value as a JSON document (members in NIP-01 order,
+// tag conditions sorted by name).
+func FilterDoc(f *mocrelay.ReqFilter) JObj {
+	var fields []JField
+	strs := func(vs []string) JArr {
+		a := JArr{}
+		for _, v := range vs {
+			a = append(a, JStr(v))
+		}
+		return a
+	}
+	if f.IDs != nil {
+		fields = append(fields, JField{"ids", strs(f.IDs)})
+	}
+	if f.Authors != nil {
+		fields = append(fields, JField{"authors", strs(f.Authors)})
+	}
+	if f.Kinds != nil {
+		a := JArr{}
+		for _, k := range f.Kinds {
+			a = append(a, JInt(k))
+		}
+		fields = append(fields, JField{"kinds", a})
+	}
+	names := make([]string, 0, len(f.Tags))
+	for n := range f.Tags {
+		names = append(names, n)
+	}
+	sort.Strings(names)
+	for _, n := range names {
+		fields = append(fields, JField{"#" + n, strs(f.Tags[n])})
+	}
+	if f.Since != nil {
+		fields = append(fields, JField{"since", JInt(*f.Since)})
+	}
+	if f.Until != nil {
+		fields = append(fields, JField{"until", JInt(*f.Until)})
+	}
+	if f.Limit != nil {
+		fields = append(fields, JField{"limit", JInt(*f.Limit)})
+	}
+	return JObj(fields)
+}
+
+// bigInts are valid NIP-01 integers that do not survive a detour through float64.
+var bigInts = []int64{1<<53 + 1, 1<<53 - 1, 1 << 53, 1<<62 + 3, math.MaxInt64, math.MaxInt64 - 1, 9007199254740993}
+
 // SubID draws a subscription id (1..64 characters).
 func SubID(t *rapid.T, label string) string {
 	s := rapid.OneOf(
 		rapid.SampledFrom([]string{"a", "sub1", "x:y", "0"}),
 		rapid.StringMatching("[a-zA-Z0-9_:-]{1,64}"),
 		UnicodeString(10),
+		// 64 characters, more than 64 bytes
+		rapid.Map(rapid.SliceOfN(rapid.SampledFrom([]rune("éあ😀ß")), 20, 64), func(r []rune) string { return string(r) }),
 	).Draw(t, label)
 	if s == "" {
 		s = "s"
